@@ -105,7 +105,7 @@ def stream_hint_spans(ctx, impl, drv):
     for _ in range(n):
         rng = ctx.rng
         base = [rng.choice(H.CODE) for _ in range(rng.randint(1, 5))]
-        layout = H.gen_decorated(rng, base, labels=H.LABELS[:8])
+        layout = H.gen_decorated(rng, base, labels=H.LABELS[:8] + ["été", "变量", "λ"])
         lead, trail = rng.choice([0, 0, 0, 1, 2]), rng.choice([0, 0, 0, 1, 2])
         spec = drv.call("c12.spec_decorate", lines=layout)
         blank = lambda: rng.choice(["", "", " ", "\t", "   "])  # noqa: E731
@@ -311,7 +311,7 @@ def gen_program(rng, real_programs):
     if nb and rng.random() < 0.6:
         for _ in range(rng.randint(1, 3)):
             k = rng.random()
-            L = rng.choice(["foo", "meta/topic/fun", "flow/conditional", "bar:baz", "bar:baz", "foo",
+            L = rng.choice(["foo", "meta/topic/fun", "flow/conditional", "bar:baz", "bar:baz", "foo", "été", "变量", "λ:x",
                             rng.choice(["function:g", "loop:for", "if", "scope:v"])])
             if k < 0.5:
                 i = rng.choice(nb)
@@ -493,7 +493,7 @@ def stream_tag_collect(ctx, impl, drv, real_programs):
 def run(ctx):
     core.prove(ctx)
     impl = H.Impl()
-    drv = core.Driver()
+    drv = H.OracleDriver(impl)
     import time
     walls = ctx.cov.setdefault("stream_wall_s", {"prove": round(ctx.elapsed(), 1)})
     try:
@@ -552,7 +552,7 @@ def run(ctx):
 def replay(ctx, path):
     obj = json.loads(Path(path).read_text(encoding="utf-8"))
     impl = H.Impl()
-    drv = core.Driver()
+    drv = H.OracleDriver(impl)
     try:
         src = obj.get("src")
         if src is None:
